@@ -277,9 +277,8 @@ impl Repr {
             return Ok(());
         } else {
             // We need to create a new buffer because the current buffer is shared with others.
-            let str = heap.as_str();
-            let additional = new_capacity - str.len();
-            let new_heap = HeapBuffer::with_additional(str, additional)?;
+            // The copy gets exactly `new_capacity`; the amortized growth rule does not apply here.
+            let new_heap = HeapBuffer::with_exact_capacity(heap.as_str(), new_capacity)?;
             Repr::from_heap(new_heap)
         };
 
